@@ -1173,7 +1173,7 @@ fn mid_callback(looping: bool, ahead: u64, ctx: &mut Ctx) {
 			}
 			if let Some((kind, b)) = bad {
 				ctx.fail(
-					format!("a decoder that runs in a burst inside a callback causes more than a gap of silence: {} :: decoder burst inside a callback", kind),
+					format!("a decoder that runs in a burst inside a callback causes more than a gap of silence: {} :: decoder burst inside a callback at {}", kind, site.unwrap_or("-")),
 					format!("{}; {}; heard (x32) {:?}", desc(), b, heard.iter().map(|v| (v * 32.0) as i32).collect::<Vec<_>>()),
 				);
 			}
